@@ -786,6 +786,48 @@ let run_sf toks =
         if ok then String.trim name ^ " accepted" else Printf.sprintf "%s REJECTED: the model has no run that produces event %d (%s)" (String.trim name) best (if best < Array.length trace then String.concat " " trace.(best) else "-")
       | [] -> "bad aux") (List.filter (fun x -> String.trim x <> "") (split_str " || " text))
 
+(* ------------------------------------------------------------------------- reconstruction (C17) *)
+let recon_chunk x i len = List.init len (fun j -> byte_tab.((x * 53 + i * 19 + j * 5 + 2) mod 256))
+let run_recon toks =
+  let ops = split_ops toks in
+  let xorbs = ref [||] and terms = ref [] and fetch = ref [] in
+  List.iter (fun op -> match op with
+      | ["X"; lens] -> xorbs := Array.append !xorbs [| Array.of_list (List.map int_of_string (String.split_on_char ',' lens)) |]
+      | ["T"; x; s; e] -> terms := !terms @ [(int_of_string x, int_of_string s, int_of_string e)]
+      | ["F"; x; s; e] -> fetch := !fetch @ [(int_of_string x, int_of_string s, int_of_string e)]
+      | _ -> ()) ops;
+  let chunks x s e = List.init (e - s) (fun k -> recon_chunk x (s + k) (!xorbs).(x).(s + k)) in
+  (* the data of a term: download the first fetch range of its xorb that covers it, trim *)
+  let term_data (x, s, e) =
+    let (fx, fs, fe) = List.find (fun (fx, fs, fe) -> fx = x && fs <= s && fe >= e) !fetch in
+    let ul = List.fold_left (fun a c -> a + List.length c) 0 (chunks x s e) in
+    ignore fx;
+    (match trim_term (chunks x fs fe) (n_of_int fs) (n_of_int s) (n_of_int e) (n_of_int ul) with
+     | Some d -> d | None -> failwith "trim_term: error") in
+  let tdata = List.map term_data !terms in
+  let qn = ref 0 in
+  List.concat_map (fun op -> match op with
+      | "Q" :: mode :: bs :: be :: _cache :: rest ->
+        let rounds = (match rest with [r] -> int_of_string r | _ -> 1) in
+        let range = if be = "-" then None else Some (int_of_string bs, int_of_string be) in
+        let (sel, off) = (match range with
+            | None -> (tdata, 0)
+            | Some (bs, be) ->
+              let pos = ref 0 and sel = ref [] and off = ref 0 in
+              List.iter (fun d -> let a = !pos and b = !pos + List.length d in
+                          if b > bs && a < be then begin (if !sel = [] then off := bs - a); sel := !sel @ [d] end; pos := b) tdata;
+              (!sel, !off)) in
+        let total = (match range with Some (bs, be) -> be - bs | None -> List.fold_left (fun a d -> a + List.length d) 0 sel) in
+        let res =
+          if mode = "seq" then (match seq_write sel true (n_of_int off) (n_of_int total) with Some f -> Some (f, n_of_int total) | None -> None)
+          else (match par_write sel (List.map (fun d -> n_of_int (List.length d)) sel) (n_of_int off) (n_of_int total) (List.init (List.length sel) nat_of_int) with
+              | Some (f, n) -> Some (f, n) | None -> None) in
+        let k = !qn in incr qn;
+        List.init rounds (fun r -> match res with
+            | Some (f, n) -> Printf.sprintf "Q%d.%d len=%s out=%s" k r (dec_n n) (cksum_bytes f)
+            | None -> Printf.sprintf "Q%d.%d err" k r)
+      | _ -> []) ops
+
 let () =
   let stream = Sys.argv.(1) in
   let ic = open_in Sys.argv.(2) in
@@ -806,6 +848,7 @@ let () =
              | "cache" -> run_cache toks
              | "crash" -> run_crash toks
              | "sf" -> run_sf toks
+             | "recon" -> run_recon toks
              | "c07" -> run_c07 toks
              | "bg4" -> run_bg4 toks
              | "c08" -> run_c08 toks
